@@ -8,6 +8,8 @@ from ..runner import Sub
 from .c01 import well_formed
 
 ID = 'C04'
+TECHNIQUE = 'PBT + recursive validity predicate (memoised) over the returned index set using independently validated cost/distance primitives'
+LEVEL_TEXT = 'Exploration: Accept/reject and farthest-point clauses are checked on every retained segment and every split of ~9.6k cases (+ 17k-40k point curves). Finds counter-examples (shrunk to a replay file); never proves absence.'
 RULE = ('Cases = (performance curve x 5 metrics x 2 distances x boundary-aware threshold: with probability ~1/2 '
         't equals the cost of an actual sub-range of the curve).  Oracle = validity predicate over the returned '
         'index set K using the library primitives on the same sub-arrays (bit-identical floats): explain(l, r) '
